@@ -20,7 +20,7 @@ RULE = ("histories of encrypt-and-generate with ONE key shared by all processes 
         "the encrypt-script plug-in interface on the same plaintext (plus a few other plaintexts), (b) separate real "
         "CLI invocations with identical arguments, (c) a fork storm: a parent that already encrypted forks children "
         "that each encrypt the same plaintext, (d) loops with time.time/time_ns/monotonic/perf_counter and os.getpid "
-        "frozen. distinct = distinct (IV, ciphertext digest) events; non-trivial = every event (each is one encryption "
+        "frozen, (e) incremental rebuilds into ONE output directory that is never cleaned (mostly identical firmware). distinct = distinct (IV, ciphertext digest) events; non-trivial = every event (each is one encryption "
         "of the history)")
 MIN_DISTINCT = {"quick": 20000, "thorough": 200000}
 ASSUMPTIONS = ["pycryptodome AES-GCM decrypts what cryptography encrypted", "a uniformly random IV space of 2^b is "
@@ -28,6 +28,7 @@ ASSUMPTIONS = ["pycryptodome AES-GCM decrypts what cryptography encrypted", "a u
 LOOP = {"quick": 70000, "thorough": 1000000}
 CLI = {"quick": 112, "thorough": 1500}
 FORKS = {"quick": 280, "thorough": 3000}
+REBUILD = {"quick": 1400, "thorough": 14000}
 FROZEN = {"quick": 7000, "thorough": 28000}
 KEY = hashlib.sha256(b"C14 shared firmware key").digest()
 KNAME = "c14_key"
@@ -87,6 +88,35 @@ def hist_cli(rec, keysdir, n, events):
             tc = fh.read()
         record(rec, "separate-cli-invocations", res, tc, PT, events)
         shutil.rmtree(out, ignore_errors=True)
+
+
+def hist_rebuild(rec, keysdir, n, events):
+    """incremental rebuilds: the SAME output directory is reused without cleaning, mostly with identical firmware
+    (A, A, A, B, A, A ...), through the command entry point and the real CLI; what counts is what the directory holds"""
+    wd = rec.tmpdir()
+    out = os.path.join(wd, "rebuild_out")
+    os.makedirs(out, exist_ok=True)
+    fws = {}
+    for tag, data in (("A", PT), ("B", PT + b"other firmware")):
+        fws[tag] = (os.path.join(wd, f"fw_{tag}.bin"), data)
+        with open(fws[tag][0], "wb") as fh:
+            fh.write(data)
+    r = rec.rng("rebuild")
+    for i in range(n):
+        tag = "B" if r.random() < 0.2 else "A"
+        path, data = fws[tag]
+        route = "sub" if i % 25 == 24 else "cmd"
+        exc = X.run_encrypt(route, path, KNAME, 7, keysdir, out, "sha-256", wd)
+        if exc is not None:
+            rec.violation("encrypt-refused", f"re-encryption into a used directory failed: {common.exc_text(exc)}",
+                          {"kind": "rebuild"})
+            return
+        with open(os.path.join(out, "suit_encryption_info.bin"), "rb") as fh:
+            res = X.parse_info(fh.read())
+        with open(os.path.join(out, "encrypted_content.bin"), "rb") as fh:
+            tc = fh.read()
+        record(rec, "rebuild-into-same-directory", res, tc, data, events)
+    shutil.rmtree(out, ignore_errors=True)
 
 
 def hist_fork(rec, keysdir, n, events):
@@ -160,6 +190,7 @@ def run_shard(rec, shard, nshards):
     hist_frozen(rec, keysdir, FROZEN[rec.tier] // nshards, events)
     hist_fork(rec, keysdir, FORKS[rec.tier] // nshards, events)
     hist_cli(rec, keysdir, CLI[rec.tier] // nshards, events)
+    hist_rebuild(rec, keysdir, REBUILD[rec.tier] // nshards, events)
     hist_loop(rec, keysdir, LOOP[rec.tier] // nshards, events)
     rec.extra["ivs"] = events
     if events:
@@ -190,7 +221,7 @@ def finish(merged, tier, seed):
             "shard": -1})
     cnt = merged["counters"]
     for k in ("events:loop-same-plaintext", "events:separate-cli-invocations", "events:fork-child",
-              "events:frozen-clock-and-pid"):
+              "events:frozen-clock-and-pid", "events:rebuild-into-same-directory"):
         if cnt.get(k, 0) < 10:
             merged["inconclusive"].append(f"history {k} has fewer than 10 events")
     # informational only: bit statistics of the observed IVs (never a verdict)
